@@ -225,6 +225,8 @@ OnHEnd(mm, e) ==
 ReqFieldsSent(r) == Regular(r.req) \o Regular(r.trl)
 SeenRegular(r) == SelectSeq(r.seen.fields, LAMBDA f : f[1] # B_host)
 
+JoinCookies(fs) == FoldLeft(LAMBDA acc, f : IF acc = <<>> THEN f[2] ELSE acc \o <<59, 32>> \o f[2], <<>>, fs)
+
 JudgeDispatch(mm, sid) ==
   LET r == St(mm, sid)
       complete == r.hasReq /\ r.peerES /\ ~r.blkOpen
@@ -239,7 +241,12 @@ JudgeDispatch(mm, sid) ==
       c5 == FlagIf(c4, fresh /\ r.seen.method # ValueOf(r.req, B_method), "C01:method-differs")
       c6 == FlagIf(c5, fresh /\ r.seen.path # ValueOf(r.req, B_path), "C01:path-differs")
       c7 == FlagIf(c6, fresh /\ Count(r.req, B_authority) = 1 /\ r.seen.host # ValueOf(r.req, B_authority), "C01:authority-differs")
-      c8 == FlagIf(c7, fresh /\ ~SameFields(SeenRegular(r), SelectSeq(ReqFieldsSent(r), LAMBDA f : f[1] # B_host \/ Count(r.req, B_authority) = 0)), "C01:request-fields-differ")
+      \* cookie fields may be split by the client and are joined with "; " for the application (RFC 7540 8.1.2.5)
+      sentF == SelectSeq(ReqFieldsSent(r), LAMBDA f : f[1] # B_cookie /\ (f[1] # B_host \/ Count(r.req, B_authority) = 0))
+      seenF == SelectSeq(SeenRegular(r), LAMBDA f : f[1] # B_cookie)
+      sentCk == JoinCookies(SelectSeq(ReqFieldsSent(r), LAMBDA f : f[1] = B_cookie))
+      seenCk == JoinCookies(SelectSeq(SeenRegular(r), LAMBDA f : f[1] = B_cookie))
+      c8 == FlagIf(c7, fresh /\ (~SameFields(seenF, sentF) \/ sentCk # seenCk), "C01:request-fields-differ")
       c9 == FlagIf(c8, fresh /\ (r.seen.blen # r.body \/ ~r.seen.bodyok), "C01:request-body-differs")
   IN IF fresh THEN Put(c9, sid, [c9.s[sid] EXCEPT !.hsJudged = TRUE]) ELSE c9
 
@@ -284,13 +291,13 @@ OnQ(mm, e) ==
       \* stream-state transition
       q0 == QOf(mm, f.sid)
       q1 == IF ~mm.hasCur \/ f.sid = 0 THEN q0
-            ELSE IF errOnSid THEN "cLocalRst"
+            ELSE IF errOnSid THEN (IF f.ty = T_PRIORITY \/ q0 \in ClosedStates THEN q0 ELSE "cLocalRst")
             ELSE IF processed THEN NextOnProcess(f, q0)
             ELSE q0
       isReqBlockEnd == processed /\ f.ty \in {T_HEADERS, T_CONT} /\ f.eh /\ (f.ty = T_CONT \/ f.first)
       r1 == IF f.sid = 0 \/ ~mm.hasCur THEN r
             ELSE LET ra == [r EXCEPT !.q = IF q1 = "cImpl" \/ (q1 = "idle" /\ f.ty # T_HEADERS) THEN r.q ELSE q1,
-                                     !.refused = @ \/ (errOnSid /\ q0 = "idle"),
+                                     !.refused = @ \/ (errOnSid /\ q0 = "idle" /\ f.ty = T_HEADERS),
                                      !.rstByPeer = @ \/ (processed /\ f.ty = T_RST),
                                      !.closedAt = IF q1 \in ClosedStates /\ r.closedAt < 0 /\ q1 # "cImpl" THEN mm.closes ELSE @]
                      rb == IF processed /\ f.ty = T_HEADERS /\ q0 = "idle"
